@@ -11,6 +11,7 @@ stream — no size bounds.
 import Rustic.Lemmas.ArchiveParent
 import Rustic.Lemmas.ArchiveComplete
 import Rustic.Lemmas.TreeIter
+import Rustic.Lemmas.SnapshotArchive
 namespace Rustic.Props.C11
 open Rustic.Tree Rustic.Parent Rustic.Archive
 
@@ -199,6 +200,19 @@ theorem parent_eq_full_sorted_source (H : List Node → Id) (chunk : RoundTrip.B
       b.root = a.root :=
   parent_eq_full H chunk len load hasData hasTree hasTree' o roots _ hs
     (tree_iterator_sorted_source_queriesOK src hw hsorted) hf a ha
+
+/-- (6+) … and for a source forest the premise `SrcItems` of (6'') is a theorem too: the new snapshot of ANY well-formed
+source (`WFL`), under any parents and any index, references only stored blobs. -/
+theorem new_snapshot_of_source_references_only_stored_blobs (H : List Node → Id) (chunk : RoundTrip.Bytes → List Id)
+    (len : RoundTrip.Bytes → Nat) (load : Id → Option (List Node)) (hasData hasTree : Id → Bool) (o : Opts)
+    (roots : List Id) (src : List Snapshot.STree) (hwf : Snapshot.WFL src) (hw : Snapshot.WalkableL src) (a : ArchOut)
+    (ha : archive H chunk len load hasData hasTree o roots (treeItems (Snapshot.entriesL [] src)) = some a) :
+    (hasTree a.root = true ∨ a.root ∈ a.treeAdds.map (·.1)) ∧
+    ∀ t ∈ a.treeAdds, ∀ n ∈ t.2,
+      (∀ st, n.subtree = some st → hasTree st = true ∨ st ∈ a.treeAdds.map (·.1)) ∧
+      (∀ c ∈ n.content.getD [], hasData c = true ∨ c ∈ a.dataAdds) :=
+  new_snapshot_references_only_stored_blobs H chunk len load hasData hasTree o roots _
+    (by rw [Snapshot.tree_iterator_items src hw]; exact Snapshot.srcItems_list src hwf) a ha
 
 /-! ### Non-vacuity: a concrete parent forest, source walk and index satisfying every hypothesis, with a
 reused file, a re-read file (blob 7 missing from the index), a changed file and a sub-directory. -/
